@@ -505,6 +505,19 @@ def check_sequence(ctx, case):
     S = fasta.Sequence('s', raw, type=typ)
     ok, e = _check_against_ref(ctx, S, typ, codes, what, length=len(codes),
                                has_space=' ' in raw, has_star='*' in raw)
+    if ok and codes and len(codes) % 5 == 2:
+        # the sequence object through ordinary Python protocols: the same molecule
+        import copy
+        import pickle
+        for how, clone in (('copy.copy', copy.copy), ('copy.deepcopy', copy.deepcopy),
+                           ('pickle round trip', lambda x: pickle.loads(pickle.dumps(x)))):
+            ctx.count('clones.' + how.split('.')[-1].split(' ')[0])
+            try:
+                S2 = clone(S)
+            except Exception as exc:
+                ctx.violation('%s: %s raised %s: %s' % (what, how, type(exc).__name__, exc), field='clone', how=how)
+                continue
+            _check_against_ref(ctx, S2, typ, codes, '%s of %s' % (how, what), length=len(codes), clone=how)
     if codes:
         ctx.distinct_case(_sig(typ, codes))
     ctx.count('len.%s' % ('0' if not codes else '1-9' if len(codes) < 10 else '10-99' if len(codes) < 100
